@@ -31,11 +31,14 @@ SOLVERS = {
 
 def gen_convex(r):
     """strictly convex OCP with linear dynamics; all scales 1"""
+    import os
+
+    deep = os.environ.get("RSIM_TIER") == "thorough"
     ops = []
-    N = r.randint(2, 4)
+    N = r.randint(2, 7 if deep else 4)
     cls = G.pick(r, ["MultipleShooting", "MultipleShooting", "SingleShooting", "DirectCollocation"])
     ops.append({"op": "new_ocp", "T": ["num", G.positive_value(r)], "t0": ["num", G.pick(r, [0, 0, G.rnum(r, -1, 1)])]})
-    nx, nu = r.randint(1, 2), r.randint(1, 2)
+    nx, nu = r.randint(1, 3 if deep else 2), r.randint(1, 2)
     xs = ["x%d" % (i + 1) for i in range(nx)]
     us = ["u%d" % (i + 1) for i in range(nu)]
     for x in xs:
